@@ -228,6 +228,34 @@ gen_harness!(gen_kp_kp_ep_white_sound, gen_kp_kp_ep_white_complete, 12, true, &[
      (|p: &Pos, _n: usize| p.ep != NO_SQ && geo_pawn(p.ep, false) & p.bb[0][P] == 0), "target set but no pawn can take"]);
 gen_harness!(gen_kp_kp_ep_black_sound, gen_kp_kp_ep_black_complete, 12, false, &[(1, 1), (0, 1)], false, true,
     [(|p: &Pos, _n: usize| p.ep != NO_SQ && geo_pawn(p.ep, true) & p.bb[1][P] != 0), "en-passant capture available"]);
+// quick-tier pawn families: kings concrete on g1 / g8, pawn(s) and the opposing man on symbolic squares
+macro_rules! pawn_q_harness {
+    ($name:ident, $mode:expr, $wtm:expr, $men:expr, $ep:expr, $max:expr) => {
+        proof_geo! {
+            #[cfg_attr(kani, kani::stub(std::vec::Vec::push, crate::stubs::push_noalloc))]
+            fn $name() {
+                let p = family_kings_at($wtm, 6, 62, $men, $ep, concat!("c01 ", stringify!($name)));
+                let (p, _len) = generator_on::<$max, $mode>(p, concat!("c01 ", stringify!($name)));
+                let us = p.us();
+                let pawn = p.bb[us][P];
+                let fwd_free = if $wtm { p.occ() & (pawn << 8) == 0 } else { p.occ() & (pawn >> 8) == 0 };
+                kani::cover!(pawn & (if $wtm { RANK_7 } else { RANK_2 }) != 0 && fwd_free, "promotion by pushing available");
+                kani::cover!(pawn & (if $wtm { RANK_2 } else { RANK_7 }) != 0 && fwd_free, "pawn on its home rank with a free square in front");
+                kani::cover!(geo_pawn(pawn.trailing_zeros() as u8, $wtm) & p.occ_c(p.them()) != 0, "pawn capture available");
+            }
+        }
+    };
+}
+
+pawn_q_harness!(gen_q_kp_kn_white_sound, 0, true, &[(0, 1), (1, 2)], false, 16);
+pawn_q_harness!(gen_q_kp_kn_white_complete, 1, true, &[(0, 1), (1, 2)], false, 16);
+pawn_q_harness!(gen_q_kp_kn_black_sound, 0, false, &[(1, 1), (0, 2)], false, 16);
+pawn_q_harness!(gen_q_kp_kn_black_complete, 1, false, &[(1, 1), (0, 2)], false, 16);
+pawn_q_harness!(gen_q_kp_kp_ep_white_sound, 0, true, &[(0, 1), (1, 1)], true, 12);
+pawn_q_harness!(gen_q_kp_kp_ep_white_complete, 1, true, &[(0, 1), (1, 1)], true, 12);
+pawn_q_harness!(gen_q_kp_kp_ep_black_sound, 0, false, &[(1, 1), (0, 1)], true, 12);
+pawn_q_harness!(gen_q_kp_kp_ep_black_complete, 1, false, &[(1, 1), (0, 1)], true, 12);
+
 // castling: king and both rooks at home with symbolic rights; the opposing king and one opposing rook on
 // symbolic squares (attacks on e/f/g, e/d/c, b1/b8; blockers on the path)
 macro_rules! castle_harness {
@@ -262,7 +290,8 @@ castle_harness!(gen_castle_n_black_complete, 1, false, 2);
 proof_geo! {
     #[cfg_attr(kani, kani::stub(std::vec::Vec::push, crate::stubs::push_noalloc))]
     fn reach_witness() {
-        let p = family(true, &[(0, 2)], false, false, "c01 reach");
+        // kings on g1 / g8, one white knight on a symbolic square
+        let p = family_kings_at(true, 6, 62, &[(0, 2)], false, "c01 reach");
         let s = to_state(&p);
         let mut list: Vec<PseudoLegalMove> = Vec::with_capacity(128);
         MoveGenerator::compute_psuedo_legal_moves_into(&s, &mut list);
